@@ -26,6 +26,7 @@ FUNCS = [TS + '.' + m for m in ('merge', '_check_merge_arguments', '__init__', '
                                 '__getitem__', '_create_merged_store_index', '_associated_open_checks', 'get_flight')]
 ROWJ = z3.Function('part_row_content', z3.IntSort(), z3.IntSort(), z3.IntSort())   # (part, local row) -> trajectory id
 NAMES = ['s2.nc', 's1.nc', 's3.nc']      # given order is not the sorted order
+PART_SPECIES = [['CO2', 'H2O'], ['NOx', 'SO4'], ['CO2', 'NOx', 'PMvol']]
 
 
 class OpenedStub(Model):
@@ -57,6 +58,7 @@ def setup_inputs(h, k, indexed=False, fsnames=None):
         h.assume(n >= 0, 'input store sizes are non-negative')
         f = GhostFile(NAMES[j], n, (lambda jj: (lambda r: ROWJ(z3.IntVal(jj), to_z3(r))))(j))
         f.part = j
+        f.species = PART_SPECIES[j]       # every input has its own species dimension
         register_file(I, NAMES[j], f, index_group=indexed)
         files.append(f)
 
@@ -139,6 +141,10 @@ def merge_open(h):
             h.fail('no-internal-error', repr(e.inst) + ' at ' + str(e.inst.where))
         return
     h.ensure('index-beyond-the-end-is-refused', i < total)
+    reads = I.hooks.get('species_reads', [])
+    h.ensure('values-labelled-by-the-species-list-of-the-file-they-are-read-from',
+             bool(reads) and all([getattr(s_, 'name', s_) for s_ in (sp or [])] == (f_.species or []) for f_, sp in reads),
+             note='; '.join(f'{f_.name}: read with {[getattr(s_, "name", s_) for s_ in (sp or [])]}, file has {f_.species}' for f_, sp in reads))
     got = ident(r)
     if got is None:
         h.fail('ith-trajectory-is-the-corresponding-input-trajectory', 'result not assembled from one row')
@@ -285,7 +291,8 @@ def location_lemma(h):
         f.partz = j
         return Group(f, ('f_point', 'f_scalar'))
     NcFiles = I.lookup_fq(TS + '.NcFiles')
-    ncf = I.call(NcFiles, [], dict(path=[], fieldsets={'base'}, dataset=[], traj_dim=[], traj_var=[], species=None,
+    h.summary(TS + '._retrieve_nc_species_values', lambda I_, fi, a, kw: None)      # the parts of this unit have no species dimension
+    ncf = I.call(NcFiles, [], dict(path=[], fieldsets={'base'}, dataset=PartList(k, lambda j: ('dataset-of-part', j)), traj_dim=[], traj_var=[], species=None,
                                    groups={'base': PartList(k, mk_group)}, size_index=size_index))
 
     def bisect_sym(I_, seq, x):
@@ -401,6 +408,33 @@ def replay(payload):
                             problems.append(f'{names}: get_flight({f_id}) wrong')
                     except Exception as e:   # noqa
                         problems.append(f'{names}: index {i}: {type(e).__name__}: {e}')
+        # inputs whose species-indexed values use different species: each part has its own species dimension
+        from AEIC.storage import Dimension, Dimensions, FieldMetadata, FieldSet
+        from AEIC.types import Species, SpeciesValues
+        if not FieldSet.known('c09_species'):
+            FieldSet('c09_species', e=FieldMetadata(dimensions=Dimensions(Dimension.TRAJECTORY, Dimension.SPECIES), description='', units=''))
+        d = os.path.join(tmp, 'species')
+        os.mkdir(d)
+        want = []
+        for nm, names, i in (('a.nc', ['CO2', 'H2O'], 1), ('b.nc', ['NOx', 'SO4'], 2), ('c.nc', ['CO2', 'NOx', 'PMvol'], 3)):
+            TrajectoryStore.active_in_thread = None
+            t = _mk(i)
+            t.add_fields(FieldSet.from_registry('c09_species'))
+            t.e = SpeciesValues({Species[n]: float(10 * i + k) for k, n in enumerate(names)})
+            want.append({n: float(10 * i + k) for k, n in enumerate(names)})
+            with TrajectoryStore.create(base_file=os.path.join(d, nm)) as ts:
+                ts.add(t)
+        TrajectoryStore.active_in_thread = None
+        out = os.path.join(d, 'out.aeic-store')
+        TrajectoryStore.merge(out, [os.path.join(d, n) for n in ('a.nc', 'b.nc', 'c.nc')])
+        with TrajectoryStore.open(base_file=out) as ms:
+            for i, w in enumerate(want):
+                try:
+                    got = {k.name: float(v) for k, v in ms[i].e.items()}
+                except Exception as e:   # noqa
+                    got = f'{type(e).__name__}: {e}'
+                if got != w:
+                    problems.append(f'merged[{i}] species values {got}, the input trajectory has {w}')
         return dict(reproduced=bool(problems), observed=problems[:6], required='merged store = concatenation in the given order')
     finally:
         TrajectoryStore.active_in_thread = None
